@@ -62,8 +62,6 @@ def run(tier, seed):
     ]
     proved = c.prove(PROPS)
     exe_h, hlog = V.build_harness("c17")
-    if exe_h is None:      # another builder may be rewriting harness/go.mod: retry once
-        exe_h, hlog = V.build_harness("c17")
     stats = {}
     if exe_h is None:
         c.broken_correspondence("harness-build", None, V.tail(hlog, 40))
@@ -95,7 +93,7 @@ def run(tier, seed):
     # 2. generated streams
     members = {}
     plan = [("lbo", 150 if quick else 500), ("json", 2000 if quick else 12000),
-            ("query", 0), ("yaml", 0)]
+            ("query", 0), ("tokens", 0), ("yaml", 0)]
     for name, n in plan:
         cases, mism, smism, st = stream(c, exe_m, name, n, tier, seed)
         stats[name] = st
@@ -124,9 +122,10 @@ def run(tier, seed):
                 c.broken_correspondence("c17" + name, short(line), "model expected: " + short(verdict, 600))
         # implementation-only oracles of the harness (lexer_offset_token)
         for v in (st.get("impl_violations") or []):
-            m = re.match(r"^lexer-offset-token (\S+) :: (.*)$", v)
-            fam = m.group(1) if m else "other"
-            c.failing_input("ParseError Offset/Token do not identify the offending token (%s)" % fam, v, v)
+            what = ("ParseError Offset/Token or the command's caret do not identify the rejected token"
+                    if v.startswith("token-position") else "ParseError Offset/Token do not identify the offending token")
+            m = re.search(r" (q=\".*)$", v)
+            c.failing_input(what, (v.split(" :: ")[0] + " " + m.group(1)) if m else v, v)
 
     # 3. thorough: the built binary with real files and pipes
     if not quick:
@@ -163,7 +162,12 @@ RULE = ("lbo: getLineByOffset through the hook on generated multi-line strings (
         "in 10/100/1000/5000-byte documents x transport (bytes.Reader = seekable, non-seekable reader with 7 read "
         "policies, file argument; thorough: built binary with file / redirected file / real pipe) x LF/CRLF/CR; query: "
         "17 kinds of bad token injected at token boundaries of 7 multi-line queries + truncation at every byte, via the "
-        "argument and via -f, plus gojq.Parse Offset/Token identity; yaml: 10 faults at character positions of 3 documents; "
+        "argument and via -f, plus gojq.Parse Offset/Token identity; tokens: 85 token texts (every operator incl. //= ?// |= "
+        "+= .., brackets, keywords, identifiers/variables with and without module prefix, $__loc__, formats, number shapes, "
+        ".foo, strings, interpolated-string openings) x 7 rejecting contexts (3 where the grammar admits a single token, "
+        "after an operator, after a complete term; multi-line prefixes) x 3 continuations (end of query, more tokens, new "
+        "line) x <arg>/-f: Offset/Token must be exactly the token from the harness table, caret column = display width "
+        "before its first byte; yaml: 10 faults at character positions of 3 documents; "
         "every case judged by the extracted model (exact stderr header) and by the specification oracle; "
         "distinct = distinct case lines")
 
